@@ -3,6 +3,7 @@ import Scion.Proofs.Net
 import Scion.Proofs.NetScmp
 import Scion.Proofs.NetScmp2
 import Scion.Proofs.NetScmpPeer
+import Scion.Proofs.NetScmpPeer2
 import Scion.Proofs.NetAlert
 /-!
 # C10 — SCMP replies and traceroute answers travel back to the sender
